@@ -157,8 +157,8 @@ impl Prop for C08 {
                 let mut srv = ValveServer::new(st.clone());
                 srv.goldsrc_transport = goldsrc;
                 // the specification gives every answer its own id: keep the target's id apart from the
-                // ids the running server assigns to its other split answers (8, 9, ...)
-                srv.split_id = 0x1000 + t.draw(CFG, 0x1000) as u32;
+                // ids the running server assigns to its other split answers (base + 1, + 2, + 3)
+                srv.split_id = (st.split_id_base + 0x100 + t.draw(CFG, 0x1000) as u32) & 0x7fff_ffff;
                 let payload = srv.payload_for(kind);
                 let enc = KindEnc { challenge_rounds: 0, split: if goldsrc { Split::GoldSrc } else { Split::Source { with_size: true } }, frags: n_want, order: None, dup: None };
                 let mut d = |b: u64| t.draw(DATA, b);
